@@ -538,6 +538,12 @@ def oracle_c14(case, out):
             m = re.search(rb"\r\nContent-Length: (\d+)\r\n", data[pos:end + 2])
             cl = int(m.group(1)) if m else 0
             pos = end + 4
+            if is_head and o.get("policy") == "sync" and o.get("resp", "fixed") == "fixed":
+                # the GET twin of request #k carries the body r<k>: the HEAD answer announces that length
+                want_cl = len(b"r%d" % (ri + 1))
+                if not m or cl != want_cl:
+                    return ("c0: the response to HEAD request #%d announces Content-Length %s; the same response to GET carries a "
+                            "%d byte body" % (ri + 1, cl if m else "(none)", want_cl))
             if is_head:
                 if pos < len(data) and not data.startswith(b"HTTP/", pos):
                     return ("c0: the head of the response to HEAD request #%d is followed by %r: a HEAD response carries no "
